@@ -1238,6 +1238,18 @@ def undo_dict_dispatch(trees, ref_trees) -> List[Tuple[str, str, str]]:
             isinstance(t.comparators[0], ast.Constant) and \
             t.comparators[0].value is None
 
+    def is_some_guard(st, h):
+        if not isinstance(st, ast.If):
+            return False
+        t = st.test
+        if isinstance(t, ast.Name) and t.id == h:
+            return True
+        return isinstance(t, ast.Compare) and len(t.ops) == 1 and \
+            isinstance(t.ops[0], ast.IsNot) and \
+            isinstance(t.left, ast.Name) and t.left.id == h and \
+            isinstance(t.comparators[0], ast.Constant) and \
+            t.comparators[0].value is None
+
     def dispatch_calls(st, h, by_name):
         out = []
         for n in ast.walk(st):
@@ -1271,6 +1283,38 @@ def undo_dict_dispatch(trees, ref_trees) -> List[Tuple[str, str, str]]:
                 h, table, key, form = lk
                 j = i + 1
                 guard = None
+                # form B: `if h is not None: <use>` / `if h: <use>`
+                if form == 'get' and j < len(stmts) and \
+                        is_some_guard(stmts[j], h):
+                    wrapper = stmts[j]
+                    by_name_b = isinstance(table.values[0], ast.Constant)
+                    calls_b = [c for b in wrapper.body
+                               for c in dispatch_calls(b, h, by_name_b)]
+                    loads_b = sum(1 for n in ast.walk(fn)
+                                  if isinstance(n, ast.Name) and n.id == h
+                                  and isinstance(n.ctx, ast.Load))
+                    if len(calls_b) == 1 and loads_b == 2:
+                        chain = list(wrapper.orelse)
+                        for k, v in reversed(list(zip(table.keys,
+                                                      table.values))):
+                            body = copy.deepcopy(wrapper.body)
+                            c = [c for b in body for c in
+                                 dispatch_calls(b, h, by_name_b)][0]
+                            if by_name_b:
+                                c.func = ast.Attribute(
+                                    value=c.func.args[0], attr=v.value,
+                                    ctx=ast.Load())
+                            else:
+                                c.func = ast.Name(id=v.id, ctx=ast.Load())
+                            chain = [ast.If(
+                                test=ast.Compare(
+                                    left=copy.deepcopy(key), ops=[ast.Eq()],
+                                    comparators=[copy.deepcopy(k)]),
+                                body=body, orelse=chain)]
+                        out.append(ast.copy_location(chain[0], st))
+                        records.append(h)
+                        i = j + 1
+                        continue
                 if form == 'get' and j < len(stmts) and \
                         is_none_guard(stmts[j], h):
                     guard = stmts[j]
